@@ -32,7 +32,7 @@ pub fn can_be_used(lhs: &Type, rhs: &Type) -> bool {
         return false;
     };
     let expected_function = var_type!((element_type)->any);
-    rhs.matches(&expected_function)
+    rhs.matches(&expected_function) && rhs.return_type().is_some()
 }
 
 pub fn exec(iter: Variable, function: Variable) -> ExecResult {
